@@ -416,8 +416,8 @@ impl Check for C17 {
     }
     fn runs(&self, tier: Tier) -> u64 {
         match tier {
-            Tier::Quick => 300_000,
-            Tier::Thorough => 6_000_000,
+            Tier::Quick => 600_000,
+            Tier::Thorough => 12_000_000,
         }
     }
     fn generate(&self, run_seed: u64, _index: u64, tier: Tier) -> Case {
@@ -841,7 +841,7 @@ impl Check for C18 {
     }
     fn runs(&self, tier: Tier) -> u64 {
         match tier {
-            Tier::Quick => 2000,
+            Tier::Quick => 3500,
             Tier::Thorough => 40_000,
         }
     }
